@@ -2,7 +2,7 @@
 
     Transcribed (function by function, branch by branch) from
       crates/vibesql-executor/src/evaluator/operators/arithmetic/{mod,addition,subtraction,
-          multiplication,division,modulo}.rs        (coerce_numeric_values, Addition::add, ...)
+          multiplication,division,modulo}.rs        (coerce_numeric_values, approximate_result, Addition::add, ...)
       crates/vibesql-executor/src/evaluator/operators/mod.rs     (OperatorRegistry::eval_binary_op)
       crates/vibesql-executor/src/evaluator/casting.rs           (to_i64, to_f64, boolean_to_i64)
       crates/vibesql-executor/src/evaluator/expressions/operators.rs (eval_unary_op)
@@ -175,6 +175,12 @@ Definition coerce_numeric_values (l r : sqlvalue) : res coerced :=
     end
   else Err ETypeMismatch.
 
+(** arithmetic/mod.rs: approximate_result — DOUBLE PRECISION operands keep double precision,
+    FLOAT / REAL operands give a single-precision result ([value as f32]) *)
+Definition is_double (v : sqlvalue) : bool := match v with VDouble _ => true | _ => false end.
+Definition approximate_result (l r : sqlvalue) (value : Z) : sqlvalue :=
+  if is_double l || is_double r then VDouble value else VFloat (f32_of_f64 value).
+
 (** * sql_mode/types.rs: division_result_type (for non-NULL operands) *)
 Inductive sqlmode := MySQL | SQLite.
 Inductive value_type := TNumeric | TInteger | TFloat.
@@ -209,7 +215,7 @@ Section Operators.
             do c <- coerce_numeric_values l r;
             match c with
             | CExact a b => do z <- i64_op p (a + b); Ok (VInteger z)
-            | CApprox a b => Ok (VFloat (f32_of_f64 (fadd b64 a b)))
+            | CApprox a b => Ok (approximate_result l r (fadd b64 a b))
             | CNumeric a b => Ok (VNumeric (fadd b64 a b))
             end
       end.
@@ -227,7 +233,7 @@ Section Operators.
             do c <- coerce_numeric_values l r;
             match c with
             | CExact a b => do z <- i64_op p (a - b); Ok (VInteger z)
-            | CApprox a b => Ok (VFloat (f32_of_f64 (fsub b64 a b)))
+            | CApprox a b => Ok (approximate_result l r (fsub b64 a b))
             | CNumeric a b => Ok (VNumeric (fsub b64 a b))
             end
       end.
@@ -242,7 +248,7 @@ Section Operators.
           do c <- coerce_numeric_values l r;
           match c with
           | CExact a b => do z <- i64_op p (a * b); Ok (VInteger z)
-          | CApprox a b => Ok (VFloat (f32_of_f64 (fmul b64 a b)))
+          | CApprox a b => Ok (approximate_result l r (fmul b64 a b))
           | CNumeric a b => Ok (VNumeric (fmul b64 a b))
           end
       end.
@@ -278,7 +284,7 @@ Section Operators.
             match c, division_result_type m l r with
             | CExact a b, TNumeric => Ok (VNumeric (fdiv b64 (f_of_Z b64 a) (f_of_Z b64 b)))
             | CExact a b, TInteger => Ok (VInteger (int_div_via_f64 a b))
-            | CApprox a b, TFloat => Ok (VFloat (f32_of_f64 (fdiv b64 a b)))
+            | CApprox a b, TFloat => Ok (approximate_result l r (fdiv b64 a b))
             | CNumeric a b, TNumeric => Ok (VNumeric (fdiv b64 a b))
             | CNumeric a b, TFloat => Ok (VNumeric (fdiv b64 a b))
             | _, _ => Panic PUnreachable
@@ -316,7 +322,7 @@ Section Operators.
           else
             match c with
             | CExact a b => do z <- i64_rem a b; Ok (VInteger z)
-            | CApprox a b => Ok (VFloat (f32_of_f64 (frem b64 a b)))
+            | CApprox a b => Ok (approximate_result l r (frem b64 a b))
             | CNumeric a b => Ok (VNumeric (frem b64 a b))
             end
       end.
